@@ -124,6 +124,9 @@ func (c *Ctx) collectMods(info *types.Info, n ast.Node, ms *modSet, depth int) {
 		}
 		switch x := m.(type) {
 		case *ast.GoStmt:
+			if fl, ok := unparen(x.Call.Fun).(*ast.FuncLit); ok && info == c.info && c.inlineGo(fl) {
+				return true // executed in place: its effects count
+			}
 			// effects of spawned goroutines are not applied (sequential abstraction)
 			for _, a := range x.Call.Args {
 				c.collectMods(info, a, ms, depth)
